@@ -25,3 +25,6 @@ package assets
 
 //@ interface Field.Key
 //@   pure
+
+//@ interface Label.UUID
+//@   pure
